@@ -254,10 +254,21 @@ func VHarnessWalletMintThenSend() {
 }
 
 var vhMeltTransportFaults = false
+var vhMeltMaxAmount uint64 = 6
+var vhMeltMaxReserve = 1
+
+// the widest version: reserve up to 2, amounts up to 6
+func VHarnessWalletMeltLostWide() {
+	vhMeltMaxReserve = 2
+	VHarnessWalletMeltLost()
+}
 
 // the same with a transport fault on the melt request (request or response lost), then a state check and a retry
 func VHarnessWalletMeltLost() {
 	vhMeltTransportFaults = true
+	if vhMeltMaxReserve < 2 {
+		vhMeltMaxAmount = 4
+	}
 	VHarnessWalletMelt()
 }
 
@@ -277,20 +288,24 @@ func VHarnessWalletMelt() {
 		_ = p
 	}
 	amount := v.U64("melt.amount")
-	v.Assume(amount >= 1 && amount <= 6)
-	reserve := uint64(v.Int("melt.reserve", 0, 1))
+	v.Assume(amount >= 1 && amount <= vhMeltMaxAmount)
+	reserve := uint64(v.Int("melt.reserve", 0, vhMeltMaxReserve))
+	actualFee := v.U64("melt.actualfee") // what the payment really costs: the mint returns the rest of the reserve as NUT-08 change
+	v.Assume(actualFee <= reserve)
 	env.db.SaveMeltQuote(storage.MeltQuote{QuoteId: "mq1", Mint: env.mint.URL, Method: "bolt11", State: nut05.Unpaid, Unit: "sat", PaymentRequest: "lnbc-mq1", Amount: amount, FeeReserve: reserve})
 	outcome := v.Int("melt.outcome", 0, 2)
 	lose := 0
 	if vhMeltTransportFaults {
 		lose = v.Int("melt.lose", 0, 2)
 	}
-	env.mint.MeltQ["mq1"] = &vhMeltQuote{Amount: amount, FeeReserve: reserve, State: nut05.Unpaid, Outcome: outcome, Lose: lose}
+	env.mint.MeltQ["mq1"] = &vhMeltQuote{Amount: amount, FeeReserve: reserve, State: nut05.Unpaid, Outcome: outcome, Lose: lose, ActualFee: actualFee, GiveChange: true}
 	l := env.snapshot()
 	resp, err := env.w.Melt("mq1")
 	if err != nil {
 		v.Reach("melt-error")
-		env.checkConservation(l, "melt refused")
+		if lose != 2 { // (a lost response leaves the mint's change in flight until the next state check: examined after it)
+			env.checkConservation(l, "melt refused")
+		}
 		if lose != 0 {
 			// the request or its answer was lost on the way: the wallet cannot know the outcome; the next state check reconciles
 			q := env.mint.MeltQ["mq1"]
@@ -332,6 +347,7 @@ func VHarnessWalletMelt() {
 				env.mint.Spent = append(env.mint.Spent, p.Secret)
 				env.mint.SpentAmounts = append(env.mint.SpentAmounts, p.Amount)
 			}
+			env.mint.giveChange(q)
 		} else {
 			q.State = nut05.Unpaid
 		}
